@@ -15,6 +15,11 @@ def build():
         r matches Ok(d) ==> dur(d) == (if self.inner_cert.not_after.t@ > crate::openssl::asn1::wall_now() {
                 (self.inner_cert.not_after.t@ - crate::openssl::asn1::wall_now()) as nat } else { 0nat }) * 1_000_000_000, //@C06.expires_in_exact_and_non_negative
 """)})
+    u.verify(X, "X509Certificate::from_pem", "crypto", props=["C06", "C03"], fns={"from_pem": FnSpec(ret="r", sig="""
+    ensures
+        // the certificate that is examined (names, expiry) is the leaf: the first certificate of the file
+        r matches Ok(c) ==> crate::openssl::x509::certs_of_pem(pem_data@).len() > 0 && crate::openssl::x509::certs_of_pem(pem_data@)[0] == c.inner_cert, //@C06.the_certificate_examined_is_the_first_of_the_file,C03.the_certificate_examined_is_the_first_of_the_file
+""")})
     u.raw("crypto", SAN_SPEC)
     u.raw("crypto", SAN_TRUSTED, trusted=True)
 
